@@ -917,7 +917,8 @@ func ruleTornRecordIsNotEOF(r *Report) {
 			}
 			if convertsEOF(cl.Call.StaticCallee()) {
 				for _, a := range cl.Call.Args {
-					if a == errv {
+					// (the error itself, or the variable in which it meets the errors of the other reads)
+					if _, isPhi := a.(*ssa.Phi); a == errv || (isPhi && car[a]) {
 						conv = true
 					}
 				}
